@@ -22,8 +22,8 @@ CONTRACT_GROUPS = ['C13']   # icontract layer (vlib/contracts.py) active inside 
 RULE = ("case = one configuration + point; non-trivial if some constraint kind has a finite bound (info required); distinct key = case index; "
         "monitor_counters count compared entries and how many were violated bounds")
 ASSUMPTIONS = ["with transforms the user-domain result must satisfy the formula with the user-domain bounds (to 1e-9 relative)"]
-REQUIRED = {"quick": {"entries_compared": 20000, "violated_entries": 3000, "mixed_infinite_both_sides": 300, "tracker_checked": 300, "transformed_compared": 2000, "__nontrivial__": 2000},
-            "thorough": {"entries_compared": 400000, "violated_entries": 60000, "mixed_infinite_both_sides": 6000, "tracker_checked": 6000, "transformed_compared": 40000, "__nontrivial__": 40000}}
+REQUIRED = {"quick": {"entries_compared": 20000, "violated_entries": 3000, "mixed_infinite_both_sides": 300, "tracker_checked": 300, "transformed_compared": 2000, "with_mask": 800, "explicit_evaluation_vector": 800, "__nontrivial__": 2000},
+            "thorough": {"entries_compared": 400000, "violated_entries": 60000, "mixed_infinite_both_sides": 6000, "tracker_checked": 6000, "transformed_compared": 40000, "with_mask": 15000, "explicit_evaluation_vector": 15000, "__nontrivial__": 40000}}
 N = {"quick": 6000, "thorough": 100000}
 
 
@@ -79,6 +79,14 @@ def run_case(case, obs):
         A[np.all(A == 0, axis=1)] = 1.0
         llo, lhi = _bounds(rng, n_lin)
         spec["linear"] = {"coefficients": A.tolist(), "lower_bounds": llo.tolist(), "upper_bounds": lhi.tolist()}
+    # a variable mask and an evaluation away from the configured initial values: differences are about the evaluated vector
+    x_eval = None
+    if rng.random() < 0.35:
+        m = rng.random(V) < 0.6
+        if V > 1:
+            m[int(rng.integers(V))] = True
+        spec["mask"] = [bool(b) for b in m]
+        obs.count("with_mask")
     case["spec"] = spec
     mixed = bool(np.any(~np.isfinite(lb)) and np.any(~np.isfinite(ub)) and (np.any(np.isfinite(lb)) or np.any(np.isfinite(ub))))
     if mixed:
@@ -102,7 +110,13 @@ def run_case(case, obs):
     plan = Plan(ctx)
     step = plan.add_step("evaluator")
     tracker = plan.add_handler("tracker", constraint_tolerance=tol, sources={step}, what="last" if rng.random() < 0.5 else "best")
-    plan.run_step(step, config=ens.make_config_dict(spec), transforms=transforms)
+    if not use_t and rng.random() < 0.5:
+        x_eval = x + rng.normal(size=V) * 0.7       # explicit start vector (differs in every entry, masked ones included)
+        obs.count("explicit_evaluation_vector")
+        plan.run_step(step, config=ens.make_config_dict(spec), transforms=transforms, variables=x_eval)
+        x = x_eval
+    else:
+        plan.run_step(step, config=ens.make_config_dict(spec), transforms=transforms)
     res = seen[0].data["results"][0]
     info = res.constraint_info
     fin_b = bool(np.any(np.isfinite(lb)) or np.any(np.isfinite(ub)))
